@@ -118,6 +118,7 @@ type ssePeer struct {
 	mu      sync.Mutex
 	waiters map[int]chan []byte
 	ended   chan struct{}
+	ownTS   bool
 }
 
 func openSSEPeer(name, version string) (*ssePeer, error) {
@@ -125,6 +126,18 @@ func openSSEPeer(name, version string) (*ssePeer, error) {
 	ts := httptest.NewUnstartedServer(s)
 	ts.Config.ErrorLog = hk.QuietStdLog()
 	ts.Start()
+	p, err := attachSSEPeer(s, ts)
+	if err != nil {
+		ts.CloseClientConnections()
+		ts.Close()
+		return nil, err
+	}
+	p.ownTS = true
+	return p, nil
+}
+
+// attachSSEPeer opens one more raw connection (GET /sse, endpoint event) to a running legacy SSE server.
+func attachSSEPeer(s *mcp.SSEServer, ts *httptest.Server) (*ssePeer, error) {
 	p := &ssePeer{s: s, ts: ts, hc: &http.Client{Transport: &http.Transport{MaxIdleConnsPerHost: 4, DisableCompression: true}},
 		waiters: map[int]chan []byte{}, ended: make(chan struct{})}
 	ctx, cancel := context.WithCancel(context.Background())
@@ -133,12 +146,12 @@ func openSSEPeer(name, version string) (*ssePeer, error) {
 	req.Header.Set("Accept", "text/event-stream")
 	resp, err := p.hc.Do(req)
 	if err != nil {
-		p.close()
+		p.detach()
 		return nil, err
 	}
 	p.body = resp.Body
 	if resp.StatusCode != 200 {
-		p.close()
+		p.detach()
 		return nil, fmt.Errorf("GET /sse: status %d", resp.StatusCode)
 	}
 	ep := make(chan string, 1)
@@ -150,10 +163,10 @@ func openSSEPeer(name, version string) (*ssePeer, error) {
 			p.sid = e[i+len("sessionId="):]
 		}
 	case <-p.ended:
-		p.close()
+		p.detach()
 		return nil, fmt.Errorf("stream ended before the endpoint event")
 	case <-time.After(answerWait):
-		p.close()
+		p.detach()
 		return nil, fmt.Errorf("no endpoint event")
 	}
 	return p, nil
@@ -215,7 +228,8 @@ func (p *ssePeer) read(ep chan string) {
 func (p *ssePeer) reg(o sOp)       { applyReg(p.s, o) }
 func (p *ssePeer) session() string { return p.sid }
 
-func (p *ssePeer) close() {
+// detach closes this connection only.
+func (p *ssePeer) detach() {
 	if p.cancel != nil {
 		p.cancel()
 	}
@@ -223,8 +237,14 @@ func (p *ssePeer) close() {
 		p.body.Close()
 	}
 	p.hc.CloseIdleConnections()
-	p.ts.CloseClientConnections()
-	p.ts.Close()
+}
+
+func (p *ssePeer) close() {
+	p.detach()
+	if p.ownTS {
+		p.ts.CloseClientConnections()
+		p.ts.Close()
+	}
 }
 
 // post sends one message on the connection's message endpoint and returns the channel its answer will arrive on.
@@ -437,7 +457,7 @@ func runSameSessionClient(c *hk.Ctx, name, version string, ops []sOp, tag string
 	f := newSrv(name, version, srvVariant{Mode: "stateful"})
 	defer f.Close()
 	info := mcp.Implementation{Name: "verif-client", Version: "1"}
-	cl, err := mcp.NewClient(f.URL, info, mcp.WithClientLogger(hk.QuietLogger{}), mcp.WithClientGetSSEEnabled(false))
+	cl, err := mcp.NewClient(f.URL, info, mcp.WithClientLogger(hk.QuietLogger{}), mcp.WithClientGetSSEEnabled(false), mcp.VerifWithHTTPClient(f.HC)) // own connection pool
 	if err != nil {
 		panic(err)
 	}
